@@ -2687,9 +2687,12 @@ fn generate_constraints_expr(
             }
         }
         ExprKind::TaskBlock(block) => {
-            // a task body is its own function: an enclosing loop cannot be left or continued from it
+            // a task body is its own function: an enclosing loop cannot be left or continued from it,
+            // and `return` / `?` inside it do not return from the enclosing function
             ctx.loop_stack.push(None);
+            let enclosing_func_rets = std::mem::take(&mut ctx.func_ret_stack);
             generate_constraints_expr(ctx, polyvar_scope, Mode::Syn, block);
+            ctx.func_ret_stack = enclosing_func_rets;
             ctx.loop_stack.pop();
             constrain(
                 ctx,
